@@ -119,3 +119,35 @@ Proof. vm_compute. reflexivity. Qed.
 Lemma lock_locks :
   fn_body Mutex_lock = [ECall (EPath ["wrap"]) [EMethod (EField (EPath ["self"]) "0") "lock" []]].
 Proof. vm_compute. reflexivity. Qed.
+
+(* The reloader loop (C15): in the drain loop over `cache_msg.try_recv()`, an empty channel only
+   leaves the drain loop while a DISCONNECTED channel (the cache was dropped) leaves the thread;
+   a disconnected event channel leaves the outer loop. *)
+Definition is_empty_arm (a : pat * option expr * expr) : bool :=
+  match a with
+  | (PTupleStruct ["Err"] [PPath p], None, EBreak) => String.eqb (last p "") "Empty"
+  | _ => false
+  end.
+
+Definition is_disconnected_exit_arm (a : pat * option expr * expr) : bool :=
+  match a with
+  | (PTupleStruct ["Err"] [PPath p], None, body) =>
+      String.eqb (last p "") "Disconnected" &&
+      existsb (fun x => match x with EReturn None => true | _ => false end) (subexprs depth_fuel body)
+  | _ => false
+  end.
+
+Definition drain_loop_arms (f : fn_def) : list (pat * option expr * expr) :=
+  flat_map (fun e => match e with
+                     | ELoop [EMatch s arms] => if calls_method_on "cache_msg" "try_recv" s then arms else []
+                     | _ => []
+                     end) (outer_loop_body f).
+
+Definition loop_exits_with_cache (f : fn_def) : bool :=
+  let arms := drain_loop_arms f in
+  existsb is_empty_arm arms && existsb is_disconnected_exit_arm arms
+  (* no catch-all error arm that would swallow the disconnection *)
+  && negb (existsb (fun a => match a with (PTupleStruct ["Err"] [PWild], _, _) => true | _ => false end) arms).
+
+Lemma reloader_loop_exits_with_its_cache : loop_exits_with_cache hot_reloading_thread = true.
+Proof. vm_compute. reflexivity. Qed.
